@@ -101,7 +101,69 @@ func sameEvents(a, b []engine.Event) bool {
 	return true
 }
 
+const obNoIdle = "no idle handler: a mutation whose earlier root field returns a promise that is not fulfilled yet never starts a later root field (strict oracle, no model)"
+
+// judgeNoIdle: the request has no IdleHandler. Nothing can fulfil a `promise` invocation then, so
+// the only way to respect the property is not to go on: no resolver of a later root field may be
+// called while a promise of an earlier one is outstanding (the unchanged executor aborts the
+// request in wait). Strict oracle, no excuse, no model (the model has an idle handler).
+func (h *harness) judgeNoIdle(c *engine.Case) verdict {
+	real, err := engine.RunReal(c)
+	if err != nil {
+		return verdict{Class: "harness", Cat: "compile", What: err.Error()}
+	}
+	v := verdict{Real: real}
+	switch {
+	case real.Panic != "":
+		v.Class, v.Cat, v.What = "crash", "crash", "panic: "+real.Panic
+	case real.Rounds != 0:
+		v.Class, v.Cat, v.What = "harness", "noidle", "the idle handler was called although the request has none"
+	default:
+		if m := engine.SerialOrder(c, real, false); m != "" {
+			v.Class, v.Cat, v.What = "property", "noidle", "request without an idle handler: "+m
+		}
+	}
+	return v
+}
+
+// noIdle runs small mutations whose resolvers all succeed (so no selection set gives up and leaves
+// a promise behind) under every sync | promise | pre assignment, without an idle handler.
+func (h *harness) noIdle() {
+	n := 0
+	for _, src := range []string{"{a:i b:i}", "{a:i b:i c:i}", "{a:{x:i} b:i c:{y:i}}", "{a:[{x:i}] b:{y:i}}", "{a!:i b:i}", "{a:{x!:i y:i}~i b:i}"} {
+		shape := engine.MustShape(src)
+		var world *engine.WVal
+		engine.EnumWorlds(shape, []string{"val"}, []string{"val"}, 2, false, func(w *engine.WVal) bool {
+			world = w
+			return false
+		})
+		base := &engine.Case{Mutation: true, Shape: shape, World: world, NoIdle: true}
+		modeSubsets(base, []string{"sync", "promise", "pre"}, func(c *engine.Case) {
+			for _, syn := range []uint64{0, 7} {
+				d := c.Clone()
+				d.Syntax = syn
+				v := h.judgeNoIdle(d)
+				b, _ := json.Marshal(d)
+				h.run.Case(string(b), len(v.Real.Abandoned) > 0)
+				h.run.Oblige(obNoIdle, "oracle", 1, v.Class == "", v.What)
+				n++
+				if v.Class != "" {
+					h.failed["noidle"]++
+					if h.failed["noidle"] <= 3 {
+						h.run.Violate(v.Class, fmt.Sprintf("%s: %s  [document %s]", v.Cat, v.What, d.Document()), "", false,
+							map[string]any{"level": "executor", "case": d, "document": d.Document(), "implementation": v.Real.Line(true)})
+					}
+				}
+			}
+		})
+	}
+	h.run.CountN("no idle handler", n)
+}
+
 func (h *harness) judgeAsk(c *engine.Case) verdict {
+	if c.NoIdle {
+		return h.judgeNoIdle(c)
+	}
 	reply := ""
 	if h.model != nil {
 		r, err := h.model.Ask(c.ModelLine())
@@ -452,6 +514,7 @@ func main() {
 		}
 	}
 	h.exhaustive()
+	h.noIdle()
 	cs := engine.WideCases(true, run.Scale(100, 600))
 	run.CountN("wide selection sets (5–12 keys) × presentations", len(cs))
 	h.batch(cs, "wide")
